@@ -457,10 +457,16 @@ Proof.
       * pose proof (embedded_length cp).
         destruct fuel as [|f]; [lia|].
         rewrite (dec_emb _ _ _ Hcp Hpq). rewrite IH; [reflexivity|exact Hcs|lia].
-    + replace fuel with
-        (List.length (utf8_encode cp) + (fuel - List.length (utf8_encode cp)))%nat by lia.
-      rewrite dec_high by (intros c Hc; now apply (utf8_encode_high cp)).
-      rewrite IH; [reflexivity|exact Hcs|lia].
+    + destruct (uspace_cp cp) eqn:Hu.
+      * assert (Hnp : addr_plain_cp cp = false).
+        { unfold addr_plain_cp. destruct (N.ltb_spec cp 128); [lia|reflexivity]. }
+        pose proof (embedded_length cp).
+        destruct fuel as [|f]; [lia|].
+        rewrite (dec_emb _ _ _ Hcp Hnp). rewrite IH; [reflexivity|exact Hcs|lia].
+      * replace fuel with
+          (List.length (utf8_encode cp) + (fuel - List.length (utf8_encode cp)))%nat by lia.
+        rewrite dec_high by (intros c Hc; now apply (utf8_encode_high cp)).
+        rewrite IH; [reflexivity|exact Hcs|lia].
 Qed.
 
 Lemma addr_cp_valid cs : forallb addr_cp cs = true -> forallb utf8_valid_cp cs = true.
@@ -556,7 +562,9 @@ Proof.
   - destruct (qchar (n_byte cp)) eqn:E.
     + destruct Hin as [<-|[]]. now left.
     + right. pose proof (embedded_clean cp c Hin). tauto.
-  - do 6 right. now apply (utf8_encode_high cp).
+  - destruct (uspace_cp cp).
+    + right. pose proof (embedded_clean cp c Hin). tauto.
+    + do 6 right. now apply (utf8_encode_high cp).
 Qed.
 
 Theorem encode_utf8_addr_unitext_clean : forall s c,
